@@ -704,6 +704,10 @@ impl World {
 		} else if loc.contains("chain/onchaintx.rs") || loc.contains("chain/package.rs") {
 			// LDK's own (debug) assertions in the claim machinery are treated as on-chain oracles
 			("C07", "C07-0 panic in on-chain claim handling")
+		} else if msg.contains("Channels originating a payment resolution must have") {
+			// a channel whose funding output the ChannelMonitor has already seen spent was resumed by a
+			// restarted ChannelManager instead of being force-closed (C10), whatever the profile
+			("C10", "C10-2 channel resumed although its ChannelMonitor had seen the funding spent")
 		} else if what.starts_with("Restart") {
 			("C10", "C10-1 restart panicked")
 		} else {
